@@ -562,3 +562,18 @@ Theorem payload_fuel_independent : forall fuel p st epoch b,
   (length b < fuel)%nat ->
   payload_loop fuel p st epoch b 0 false false = payload_loop (S (length b)) p st epoch b 0 false false.
 Proof. intros. apply payload_fuel_any; lia. Qed.
+
+(* ---------- the generated dispatch table is the one of RFC 9000 section 12.4 (Table 3) plus RFC 9221:
+   frame type -> packet types it may appear in (I=0, 0-RTT=1, H=2, 1-RTT=3).  A source change that
+   widens or narrows an entry breaks this lemma (the table itself is regenerated, so the model would
+   silently follow the source otherwise). *)
+Definition rfc9000_table3 : list (Z * list Z) :=
+  [(0, [0;1;2;3]); (1, [0;1;2;3]); (2, [0;2;3]); (3, [0;2;3]); (4, [1;3]); (5, [1;3]); (6, [0;2;3]); (7, [3]);
+   (8, [1;3]); (9, [1;3]); (10, [1;3]); (11, [1;3]); (12, [1;3]); (13, [1;3]); (14, [1;3]); (15, [1;3]);
+   (16, [1;3]); (17, [1;3]); (18, [1;3]); (19, [1;3]); (20, [1;3]); (21, [1;3]); (22, [1;3]); (23, [1;3]);
+   (24, [1;3]); (25, [1;3]); (26, [1;3]); (27, [1;3]); (28, [0;1;2;3]); (29, [1;3]); (30, [3]);
+   (48, [1;3]); (49, [1;3])].
+
+Lemma frame_table_is_rfc9000 :
+  map (fun row => (fst row, snd (snd row))) frame_table = rfc9000_table3.
+Proof. reflexivity. Qed.
